@@ -226,6 +226,7 @@ def run(ctx):
     if tier == "thorough":
         ctx.run_tlc("e1_small", "LegacyLink", "LegacyLink_small.cfg", coverage=False)
     ctx.run_tlc("e1_R100", "LegacyLink", "LegacyLink_quick.cfg", coverage=(tier == "thorough"))
+    ctx.run_tlc("e1_liveness", "LegacyLink", "LegacyLink_live.cfg")          # every request that was begun returns, whatever the board does
     # G: scripts = hist of every complete history of the generating config
     dump = os.path.join(ctx.workdir, "gen", "states")
     ctx.run_tlc("gen", "LegacyLink", "LegacyLink_gen.cfg", dump=dump)
